@@ -44,6 +44,7 @@ type Shape struct {
 	Filter   bool       `json:"filter"`
 	Header   bool       `json:"header,omitempty"`   // old csv: header row present
 	Preamble int        `json:"preamble,omitempty"` // old csv: junk lines before the header
+	Skip     int        `json:"skip,omitempty"`     // old csv: junk lines between the header (or the start) and the first data row
 	EDI      *EDIDelims `json:"edi,omitempty"`
 	Envelope bool       `json:"envelope,omitempty"` // edi/xml/json: records wrapped in a non-target envelope
 	// ReplaceQuotes sets replace_double_quotes (csv, csv2): the reader stack gets a quote-replacing reader. Quoted
@@ -112,6 +113,7 @@ func DrawShape(t *rapid.T, o ShapeOpts) Shape {
 		if s.Header {
 			s.Preamble = rapid.IntRange(0, 2).Draw(t, "preamble")
 		}
+		s.Skip = rapid.SampledFrom([]int{0, 0, 1, 2}).Draw(t, "skip")
 	case "csv2":
 		s.Delim = rapid.SampledFrom([]string{",", "|", "\t", ";", "§"}).Draw(t, "delim")
 		if s.Variant == 2 {
@@ -410,6 +412,9 @@ func (s Shape) transformDecls() obj {
 		fields["jsf"] = obj{"custom_func": obj{"name": "javascript", "args": []interface{}{
 			obj{"const": "(function(){ if (a.indexOf('BOOM') === 0) { throw new Error('boom') } return a.length })()"},
 			obj{"const": "a"}, obj{"xpath": "c0"}}}}
+		// plain javascript must never see a _node (nor anything else) left behind in a pooled VM by an earlier call
+		fields["jsa"] = obj{"custom_func": obj{"name": "javascript", "args": []interface{}{
+			obj{"const": "(typeof _node === 'undefined' ? 'clean' : 'leak:' + _node) + (typeof x === 'undefined' ? '' : '/x:' + x)"}}}}
 		fields["js2"] = obj{"custom_func": obj{"name": "javascript", "args": []interface{}{
 			obj{"const": "typeof b === 'undefined' ? a.toUpperCase() : 'leak'"}, obj{"const": "a"}, obj{"xpath": "c0"}}}}
 	case 3:
@@ -458,9 +463,10 @@ func (s Shape) fileDecl() obj {
 		if s.ReplaceQuotes {
 			fd["replace_double_quotes"] = true
 		}
+		fd["data_row_index"] = 1 + s.Skip
 		if s.Header {
 			fd["header_row_index"] = s.Preamble + 1
-			fd["data_row_index"] = s.Preamble + 2
+			fd["data_row_index"] = s.Preamble + 2 + s.Skip
 		}
 		return fd
 	case "csv2":
@@ -741,6 +747,9 @@ func (s Shape) RenderParts(recs []Rec) (pro string, parts []string, epi string) 
 				}
 			}
 			pro += csvLine(names, s.Delim) + eol
+		}
+		for i := 0; i < s.Skip; i++ {
+			pro += fmt.Sprintf("skipped row %d%s", i, eol)
 		}
 		for _, r := range recs {
 			parts = append(parts, csvLine(r.Vals, s.Delim)+eol)
